@@ -555,6 +555,23 @@ func c07Cases(tier string) []c07Case {
 		add(&RIDL{Name: "a.b", Members: []RMember{b[0], b[1], {Kind: "error", Name: "E", Type: TStruct(F("items", t2))}}}, false, "nested2")
 		add(&RIDL{Name: "a.b", Members: []RMember{b[0], {Kind: "type", Name: "T1", Type: TStruct(F("items", t2))}, {Kind: "method", Name: "M", In: TStruct(F("x", TAlias("T1"))), Out: TStruct(F("y", TArr(TAlias("T1"))))}}}, false, "nested2")
 	}
+	// records nested 4..10 deep (alone and below arrays/maps/optionals), at every position
+	for depth := 4; depth <= 10; depth++ {
+		for variant := 0; variant < 2; variant++ {
+			t := TStruct(F("leaf", T("int")))
+			for i := 0; i < depth; i++ {
+				inner := t
+				if variant == 1 {
+					inner = []*RType{TArr(t), TMap(t), TMaybe(t)}[i%3]
+				}
+				t = TStruct(F(fmt.Sprintf("l%d", i), inner))
+			}
+			add(&RIDL{Name: "a.b", Members: []RMember{b[0], {Kind: "method", Name: "M", In: TStruct(F("deep", t)), Out: TStruct()}}}, false, "deep")
+			add(&RIDL{Name: "a.b", Members: []RMember{b[0], {Kind: "method", Name: "M", In: TStruct(), Out: TStruct(F("deep", t))}}}, false, "deep")
+			add(&RIDL{Name: "a.b", Members: []RMember{b[0], b[1], {Kind: "error", Name: "E", Type: TStruct(F("deep", t))}}}, false, "deep")
+			add(&RIDL{Name: "a.b", Members: []RMember{b[0], {Kind: "type", Name: "T1", Type: t}, b[1]}}, false, "deep")
+		}
+	}
 	// recursive and mutually recursive aliases (legal varlink), used and unused
 	node := RMember{Kind: "type", Name: "Node", Type: TStruct(F("name", T("string")), F("children", TArr(TAlias("Node"))))}
 	nodeOpt := RMember{Kind: "type", Name: "Node", Type: TStruct(F("next", TMaybe(TAlias("Node"))))}
